@@ -6,6 +6,9 @@ that rules are invariant under the commonest behaviour-preserving rewrites:
   N2  `if not c: A else: B`               ->  `if c: B else: A` (no elif chain involved)
   N3  `if c: ...; return/raise/continue/break  else: B`  ->  `if c: ...` followed by B
   N4  `pass` statements are dropped from blocks that have other statements
+  N5  f"{a}.{b}" (plain fields, no format spec, conversion only !r/!s)  ->  "%s.%s" % (a, b)
+  N6  `except T as e:` binding is kept, but the py2 idiom `e = sys.exc_info()[1]` as the first statement of a handler
+      is rewritten to the binding form (`except T as e:`)
 
 Nodes keep their original line numbers (reports still point into the real
 file).  N1 treats the rebinding form and the in-place form alike, which is
@@ -41,6 +44,37 @@ class Desugar(ast.NodeTransformer):
                 return ast.copy_location(ast.AugAssign(target=t, op=v.op, value=v.right), n)
             if isinstance(v.op, (ast.Add, ast.Mult)) and _same_path(t, v.right) and _is_num(v.left):
                 return ast.copy_location(ast.AugAssign(target=t, op=v.op, value=v.left), n)
+        return n
+
+    def visit_JoinedStr(self, n):
+        self.generic_visit(n)
+        fmt = []
+        args = []
+        for v in n.values:
+            if isinstance(v, ast.Constant) and isinstance(v.value, str):
+                fmt.append(v.value.replace("%", "%%"))
+            elif isinstance(v, ast.FormattedValue) and v.format_spec is None and v.conversion in (-1, 115, 114):
+                fmt.append("%r" if v.conversion == 114 else "%s")
+                args.append(v.value)
+            else:
+                return n
+        if not args:
+            return ast.copy_location(ast.Constant(value="".join(fmt).replace("%%", "%")), n)
+        right = args[0] if len(args) == 1 and not isinstance(args[0], ast.Tuple) else ast.Tuple(elts=args, ctx=ast.Load())
+        return ast.copy_location(ast.BinOp(left=ast.Constant(value="".join(fmt)), op=ast.Mod(), right=right), n)
+
+    def visit_ExceptHandler(self, n):
+        self.generic_visit(n)
+        if n.name is None and n.body:
+            st = n.body[0]
+            if isinstance(st, ast.Assign) and len(st.targets) == 1 and isinstance(st.targets[0], ast.Name):
+                try:
+                    txt = ast.unparse(st.value)
+                except Exception:
+                    txt = ""
+                if txt == "sys.exc_info()[1]":
+                    n.name = st.targets[0].id
+                    n.body = n.body[1:] or [ast.copy_location(ast.Pass(), st)]
         return n
 
     def _block(self, stmts):
